@@ -2969,6 +2969,12 @@ class ContractionTree:
         """
         if reset:
             self.reset_contraction_indices()
+        else:
+            # the recipes derived from the index orders about to be modified
+            # are stale either way
+            for node in self.children:
+                for k in ("einsum_eq", "tensordot_axes", "tensordot_perm"):
+                    self.info[node].pop(k, None)
 
         if priority == "flops":
             nodes = sorted(
